@@ -16,7 +16,7 @@ RULE = ("trees of depth <= 4 over a small vocabulary (build, src, docs, a.log, a
         "comments, blank lines, !negation (git, docker) and `syntax: glob|regexp` sections with \\.ext$, ^dir, name (hg); "
         "half of the cases use one pattern kind only. Root spelled `.`, `./`, relative sub-directory, absolute, absolute "
         "sub-directory, with the cwd at the repository root or below it; switch given as root option, configuration "
-        "default, configuration default + `no...` override, or absent. Oracle: git's verdict from `git check-ignore "
+        "default, configuration default + `no...` override, or absent; optionally with dfs and mindepth / maxdepth windows (the unfiltered listing uses the same window). Oracle: git's verdict from `git check-ignore "
         "--no-index`; hg and docker from reference matchers written from the tools' documentation; expected rows = "
         "unfiltered listing minus entries that are ignored or lie below an ignored directory; with the switch off the "
         "listing must be the unfiltered one. A fifth of the cases put two repositories / contexts (own tree, own ignore file) "
@@ -101,7 +101,8 @@ def strategy_(draw, tier, tool=None):
             k = k0 if single else draw(st.sampled_from(GLOB_KINDS))
             lines.append(draw(st.sampled_from(pool[k])))
         if draw(st.sampled_from(range(3))) == 0:
-            lines.append("!" + draw(st.sampled_from(["keep.log", "abc", "a.log", "notes.md", "src/a.log", "x.tmp"])))
+            lines.append("!" + draw(st.sampled_from(["keep.log", "abc", "a.log", "notes.md", "src/a.log", "x.tmp",
+                                                    "*.txt", "*.log", "*.md", "a*", "keep.*"])))
     tops = [n for n, nd in spec.items() if nd["t"] == "d"]
     root = draw(st.sampled_from(["dot", "dot", "dotslash", "abs", "sub", "abs-sub", "cwd-below"]))
     sub = draw(st.sampled_from(tops)) if tops else None
@@ -109,7 +110,8 @@ def strategy_(draw, tier, tool=None):
         root = "dot"
     return {"tree": spec, "tool": tool, "lines": lines, "root": root, "sub": sub,
             "switch": draw(st.sampled_from(["option", "option", "alias", "config", "config+no", "absent"])),
-            "mode": draw(st.sampled_from(["", "", "dfs"]))}
+            # traversal and depth options next to the ignore switch: what is ignored must not depend on them
+            "mode": draw(st.sampled_from(["", "", "", "dfs", "mindepth 2", "mindepth 3", "maxdepth 2", "mindepth 2 dfs", "mindepth 2 maxdepth 3"]))}
 
 
 @st.composite
@@ -385,17 +387,24 @@ def check(case):
                 out.add("C20/%s/switch-off-still-filters/%s" % (tool, sw), query=q, missing=sorted(set(U) - set(got))[:6])
         else:
             cand = {p: r for p, r in rels.items() if not (r == ".git" or r.startswith(".git/"))}
+            # verdicts are computed for EVERY entry of the repository, not only the listed ones: with a depth window
+            # an ignored ancestor directory may itself lie outside the listing
+            every = set(cand.values())
+            for dp, dn, fn in os.walk(repo):
+                if ".git" in dn and dp == repo:
+                    dn.remove(".git")
+                for n in dn + fn:
+                    every.add(os.path.relpath(os.path.join(dp, n), repo))
             if tool == "git":
                 # directories are asked with a trailing slash so that `dir/` patterns apply
-                ask = []
-                for p, r in cand.items():
-                    ask.append(r + "/" if os.path.isdir(os.path.join(repo, r)) and not os.path.islink(os.path.join(repo, r)) else r)
+                ask = [r + "/" if os.path.isdir(os.path.join(repo, r)) and not os.path.islink(os.path.join(repo, r)) else r
+                       for r in sorted(every)]
                 ign = {a.rstrip("/") for a in git_ignored_set(repo, ask)}
-                direct = {r for r in cand.values() if r in ign}
+                direct = {r for r in every if r in ign}
             elif tool == "hg":
-                direct = {r for r in cand.values() if hg_ignored(case["lines"], r)}
+                direct = {r for r in every if hg_ignored(case["lines"], r)}
             else:
-                direct = {r for r in cand.values() if docker_ignored(case["lines"], r)}
+                direct = {r for r in every if docker_ignored(case["lines"], r)}
             # an ignored directory hides its subtree (below the repository root)
             def omitted(r):
                 parts = r.split("/")
